@@ -244,11 +244,11 @@ Proof. vm_compute. split; reflexivity. Qed.
 Example agrees_satisfies_nonvacuous :
   let n := ex_with 2 (ex_tbl "app.T" [ex_fld "sys.ID" 11; ex_fld "a" 3; ex_fld "c" 4] [Node "c0" (VStr "app.R") []; Node "c1" (VStr "app.R") []]) in
   let t := mkTrace ex_old n (CRemoved ["AppDef"; "Types"; "app.T"; "Fields"; "b"])
-                   [mkerr compat_c_append_only ["AppDef"; "Types"; "app.T"; "Fields"; "b"] NodeRemoved] [] in
+                   [mkerr compat_c_append_only ["AppDef"; "Types"; "app.T"; "Fields"; "b"] NodeRemoved] [] [] in
   agrees t = true /\ covered constrains t = true /\ satisfies t = true /\
   (* the F15b trace (query argument type changed) is reproduced by the model, not covered, and fails the oracle *)
   let n' := ex_with 1 (ex_qry "app.Q" [ex_fld "z" 4; ex_fld "w" 3] [ex_fld "y" 8]) in
-  let t' := mkTrace ex_old n' (CChanged ["AppDef"; "Types"; "app.Q"; "QueryArgs"]) [] [] in
+  let t' := mkTrace ex_old n' (CChanged ["AppDef"; "Types"; "app.Q"; "QueryArgs"]) [] [] [] in
   agrees t' = true /\ covered constrains t' = false /\ satisfies t' = false.
 Proof. vm_compute. repeat split. Qed.
 
